@@ -492,7 +492,10 @@ func c16BuiltinPrograms() []c16Item {
 		}
 	}
 	// a block whose only statement is an expression statement that emits no line
-	for _, e := range []string{"itoa(vi)", "vi", "5", "\"s\"", "true", "(vi)", "vs", "(itoa(vi))"} {
+	for _, e := range []string{"itoa(vi)", "vi", "5", "\"s\"", "true", "(vi)", "vs", "(itoa(vi))",
+		// every operator kind with an unused value (a back-end may or may not emit a line for it)
+		"vi == 3", "vi != 3", "vi < 3", "vi >= 3", "vs == \"s\"", "vb == gb", "vi + 1", "vi * 2 - 1", "vi % 2", "vb && gb", "vb || gb", "!vb",
+		"vs + \"x\"", "len(vs)", "len(vsl)", "vs[0:1]", "vs[0]", "exists(\"f.txt\")", "(vi == 3)", "vi == 3 && vb"} {
 		for _, c := range cn {
 			w := ctxs[c]
 			if c == "top" {
